@@ -21,7 +21,8 @@ func init() {
 		Run:    runC04})
 }
 
-var c04Patterns = []string{"equal", "all-below", "sgx0-above", "sgx15-above", "pce-above", "tdx0-above", "tdx1-above", "tdx2-above", "tdx15-above", "sgx0-below+sgx15-above", "tdx2-below+tdx15-above", "sgx-all-below+pce-above"}
+var c04Patterns = []string{"equal", "all-below", "sgx0-above", "sgx15-above", "pce-above", "tdx0-above", "tdx1-above", "tdx2-above", "tdx15-above", "sgx0-below+sgx15-above", "tdx2-below+tdx15-above", "sgx-all-below+pce-above",
+	"sgx7-mid-above", "tdx9-mid-above"}
 
 // c04Level builds a level from a comparison pattern relative to the platform.
 func c04Level(p world.Platform, tee []byte, pattern int, status string) world.Level {
@@ -68,6 +69,10 @@ func c04Level(p world.Platform, tee []byte, pattern int, status string) world.Le
 			}
 		}
 		pce++
+	case 12: // a component in the middle of the vector
+		sgx[7]++
+	case 13:
+		tdx[9]++
 	}
 	return world.Level{Tcb: world.Tcb{Sgx: world.CompsOf(sgx), Pcesvn: world.IntP(pce), Tdx: world.CompsOf(tdx)}, TcbDate: "2029-06-01T00:00:00Z", TcbStatus: status}
 }
